@@ -5,6 +5,9 @@ From RsM Require Import Model.Tlv Model.TlvSpec
   Proofs.TlvFacts Proofs.TlvTotal Proofs.TlvWriter Proofs.TlvRoundtrip
   Proofs.TlvWithin Proofs.TlvScalar Proofs.TlvReencode Proofs.TlvIter Proofs.TlvDecodeInv
   Proofs.TlvMonitor Props.C16.
+From RsM Require Import Model.TlvDerive Model.TlvBuf Proofs.TlvDeriveFacts Proofs.TlvDeriveTotal
+  Proofs.TlvDeriveRoundtrip Proofs.TlvDeriveLenient Proofs.TlvBufFacts Proofs.TlvBufDerive.
+Import ListNotations.
 Open Scope N_scope.
 
 Check (C16_total : forall s : bytes, blen s < two63 -> Forall safe (probe_all s)).
@@ -32,3 +35,23 @@ Check (C16_tlv_iter_roundtrip : forall (cs : list tree) (rest : bytes),
 Check (C16_decode_reencode : forall (s : bytes) (x : tree),
   is_bytes s -> blen s < two63 -> decode s = ROk x ->
   wf_root x /\ exists rest, s = encode x ++ rest).
+Check (C16_derive_roundtrip : forall (d : dty) (t : tag) (v : dval) (bs rest : bytes),
+  wf_dty d -> has_ty d v -> wf_tag t -> denc d t v = ROk bs ->
+  blen (bs ++ rest) < two63 -> ddec d (bs ++ rest) = ROk v).
+Check (C16_derive_decode_total : forall (d : dty) (el : bytes), blen el < two63 -> safe (ddec d el)).
+Check (C16_derive_missing_mandatory_is_error :
+  forall (k : ckind) (fs : list (N * dty)) (t : tag) (all_cs : list tree) (rest : bytes)
+         (ft : N) (fd : dty),
+  In (ft, fd) fs -> is_option fd = false ->
+  wf_list all_cs -> lookup_ctx ft all_cs = None ->
+  blen (encode (Node t k all_cs) ++ rest) < two63 ->
+  exists e, ddec (DStruct k false fs) (encode (Node t k all_cs) ++ rest) = RErr e).
+Check (C16_writebuf_rewind_restores : forall (w : wbuf) (ops : list bop),
+  wb_ok w ->
+  let w' := snd (wb_run w [] (BAnchor :: ops ++ [BRewind 0])) in
+  wb_as_slice w' = wb_as_slice w /\ wb_end w' = wb_end w /\
+  firstn (N.to_nat (wb_end w)) (wb_mem w') = firstn (N.to_nat (wb_end w)) (wb_mem w)).
+Check (C16_derive_atomic : forall (d : dty) (t : tag) (v : dval) (w : wbuf),
+  atomic_ty d = true -> wb_ok w -> fst (denc_wb d t v w) <> ROk tt ->
+  wb_end (snd (denc_wb d t v w)) = wb_end w /\
+  wb_as_slice (snd (denc_wb d t v w)) = wb_as_slice w).
